@@ -1,10 +1,11 @@
 """Run a batch of abstract programs through the real tool chain and the model; collect verdicts."""
 import os
 import random
+import re
 import time
 
 from . import e2e_gen as G, e2e_run as R, e2e_check as C, planner
-from .common import scratch, rmtree, log, seed, BuildState
+from .common import scratch, rmtree, log, seed, run, GOENV, BuildState
 
 
 class UnitResult:
@@ -42,6 +43,23 @@ def evaluate(progs, want_build=True, want_run=True, keep=False, vet=False):
         R.write_module(root, progs)
         t = time.time()
         rc, out, err = R.wire_gen(root)
+        if re.search(r"(?m)^wire: generate failed$", err):
+            # the packages did not load.  If that is because a generated program is not valid Go (a defect of the generator,
+            # never of Wire), drop that program and run again; if every program type-checks, the load failure stands.
+            rcv, outv, errv = run(["go", "vet", "-tags", "wireinject", "./..."], cwd=root, env=dict(GOENV), timeout=600)
+            badp = set()
+            for ln in (outv + errv).split("\n"):
+                m = re.match(r"(?:vet: )?(?:\./)?(p[\w]+)/\S+\.go:\d+:\d+: (.*)", ln)
+                if m and "json tag" not in m.group(2) and "self-assignment" not in m.group(2):
+                    badp.add(m.group(1))
+            badp &= {p.name for p in progs}
+            if badp:
+                info["invalid_programs_dropped"] = sorted(badp)
+                log("e2e: %d generated programs are not valid Go and were dropped: %s" % (len(badp), sorted(badp)[:5]))
+                for nm in badp:
+                    rmtree(root + "/" + nm)
+                progs = [p for p in progs if p.name not in badp]
+                rc, out, err = R.wire_gen(root)
         info["times"]["wire_gen"] = round(time.time() - t, 2)
         info["wire_rc"] = rc
         info["wire_stderr_tail"] = err[-2000:]
